@@ -268,6 +268,19 @@ def check(case):
             if not np.array_equal(got2, got):
                 viols.append(V("getitem_vs_sol", "system[t] differs from sol(t) at t[{}]".format(k), fam, **attrs))
                 break
+        # what a query hands out belongs to the caller: modifying it in place (y = sol(t); y += ...) must not change what the
+        # next query at the same time returns, nor the recorded trajectory
+        if not viols:
+            for k in sorted(set([0, N // 2, N])):
+                first = sol(np.float64(t[k]))
+                before = np.array(first, dtype=np.float64, copy=True)
+                if isinstance(first, np.ndarray):
+                    first += 1.0
+                    again = query(t[k])
+                    if not np.array_equal(again, before) or not np.array_equal(np.asarray(a.y, dtype=np.float64)[k], y[k]):
+                        viols.append(V("query_result_aliases_dense_output", "{}: after `v = sol(t[{}]); v += 1` the same query returns values changed by {:.3e} (recorded state changed by {:.3e})".format(
+                            method, k, float(np.max(np.abs(again - before))), float(np.max(np.abs(np.asarray(a.y, dtype=np.float64)[k] - y[k])))), fam, **attrs))
+                        break
     except Exception as e:
         if exc_origin(e)[0] == "harness":
             raise
